@@ -53,6 +53,9 @@ pub enum Scn {
     Cookie { inside: bool, other_secret: bool },
     /// a cookie that is one second inside the expiry when the client connects, presented two seconds later
     StallThenCookie,
+    /// a full login, then the cookie the router itself issued is presented again: at once (accepted) or, with a
+    /// configured expiry of a few seconds, once it is older than that (refused)
+    IssuedCookie { wait_out: bool },
     Behave(Behaviour),
 }
 
@@ -68,17 +71,29 @@ pub struct Case {
     /// part (c): a second instance with a huge status response and a client that does not read it
     #[serde(default)]
     pub unread_response: bool,
+    /// the instance is a child process that reads this configuration through the documented layers
+    /// (configuration file, auth secret file, environment) instead of an in-process passage::start
+    #[serde(default)]
+    pub layers: Option<crate::layers::LayerPlan>,
 }
 
 pub struct C14;
 
 static STARTED: AtomicU64 = AtomicU64::new(0);
+static LAYERED: AtomicU64 = AtomicU64::new(0);
 
-fn start_passage(case: &Case) -> u16 {
+/// a running instance: in-process (stopped by the SIGINT at the end of the run) or a child (stopped when dropped)
+struct Instance {
+    port: u16,
+    _child: Option<crate::layers::Layered>,
+    how: String,
+}
+
+fn start_passage(case: &Case) -> Result<Instance, String> {
     start_passage_with(case, None)
 }
 
-fn start_passage_with(case: &Case, favicon: Option<String>) -> u16 {
+fn start_passage_with(case: &Case, favicon: Option<String>) -> Result<Instance, String> {
     let port = net::free_port();
     let mut cfg = json!({
         "address": format!("127.0.0.1:{port}"),
@@ -96,6 +111,12 @@ fn start_passage_with(case: &Case, favicon: Option<String>) -> u16 {
     if let Some(f) = favicon {
         cfg["adapters"]["status"] = json!({"fixed": {"name": "big", "favicon": f}});
     }
+    if let Some(plan) = &case.layers {
+        let l = crate::layers::start(&cfg, plan)?;
+        LAYERED.fetch_add(1, Ordering::Relaxed);
+        let how = format!("child process, configuration through layers: {}", l.description);
+        return Ok(Instance { port, _child: Some(l), how });
+    }
     let config: passage::config::Config = serde_json::from_value(cfg).expect("configuration value");
     STARTED.fetch_add(1, Ordering::Relaxed);
     std::thread::Builder::new()
@@ -109,7 +130,7 @@ fn start_passage_with(case: &Case, favicon: Option<String>) -> u16 {
         })
         .expect("spawn");
     net::wait_accepting(port);
-    port
+    Ok(Instance { port, _child: None, how: "in-process passage::start".into() })
 }
 
 /// a handshake frame (next state = status) whose declared length is exactly `l`
@@ -187,7 +208,7 @@ fn run_scenario(case: &Case, port: u16, scn: &Scn) -> Result<(), (String, String
             }
         }
         Scn::StallThenCookie => {
-            if m < 600 || case.timeout_s < 3 {
+            if m < 600 || case.timeout_s < 3 || case.expiry < 30 {
                 return Ok(());
             }
             let mut c = NetClient::connect(port).map_err(|e| ("inconclusive".to_string(), e.to_string()))?;
@@ -226,6 +247,48 @@ fn run_scenario(case: &Case, port: u16, scn: &Scn) -> Result<(), (String, String
                 }
             }
         }
+        Scn::IssuedCookie { wait_out } => {
+            if m < 600 || case.timeout_s < 2 || (*wait_out && case.expiry > 3) {
+                return Ok(());
+            }
+            let inc = |e: String| ("inconclusive".to_string(), e);
+            let mut c = NetClient::connect(port).map_err(|e| inc(e.to_string()))?;
+            c.login_until_success(2, "Claimed", None, timeout + SLACK).map_err(|e| inc(format!("first login: {e:?}")))?;
+            let _ = c.send(&Pkt::LoginAck);
+            let _ = c.send(&sim::client_information("en_us"));
+            let mut issued = None;
+            let t_issue = Instant::now();
+            loop {
+                match c.recv(timeout + SLACK) {
+                    Ok(Pkt::CfgStoreCookie { key, payload }) if key == cookie::AUTH_KEY => issued = Some(payload),
+                    Ok(Pkt::CfgStoreCookie { .. }) => {}
+                    Ok(Pkt::CfgKeepAliveCb { id }) => {
+                        let _ = c.send(&Pkt::CfgKeepAliveSb { id });
+                    }
+                    Ok(Pkt::CfgTransfer { .. }) => break,
+                    other => return Err(inc(format!("first login did not reach the Transfer: {other:?}"))),
+                }
+            }
+            let Some(issued) = issued else { return Err(("no-auth-cookie-issued-although-secret-configured".into(), "a routed player was not given an authentication cookie although a secret is configured".into())) };
+            drop(c);
+            if *wait_out {
+                std::thread::sleep(Duration::from_millis(case.expiry * 1000 + 1300));
+            }
+            let age = t_issue.elapsed();
+            let mut c2 = NetClient::connect(port).map_err(|e| inc(e.to_string()))?;
+            match c2.login_until_success(3, "Claimed", Some(issued), timeout + SLACK) {
+                Ok((should_auth, _)) => {
+                    if *wait_out && !should_auth {
+                        return Err(("issued-cookie-older-than-configured-expiry-accepted".into(), format!("configured expiry {} s: the cookie the router issued was accepted again {age:?} after it was issued", case.expiry)));
+                    }
+                    if !*wait_out && should_auth && case.expiry >= 30 {
+                        return Err(("issued-cookie-within-configured-expiry-refused".into(), format!("configured expiry {} s: the cookie the router issued was refused {age:?} after it was issued", case.expiry)));
+                    }
+                    Ok(())
+                }
+                Err(e) => Err(inc(format!("second login failed: {e:?}"))),
+            }
+        }
         Scn::Frame(fl) => {
             let l = match fl {
                 FrameLen::MaxMinusOne => m - 1,
@@ -253,8 +316,9 @@ fn run_scenario(case: &Case, port: u16, scn: &Scn) -> Result<(), (String, String
             Ok(())
         }
         Scn::Cookie { inside, other_secret } => {
-            // a login does not fit into very small frames (the Encryption Response has 261 bytes)
-            if m < 600 {
+            // a login does not fit into very small frames (the Encryption Response has 261 bytes); expiries of a few
+            // seconds leave no margin for crafted ages (they are exercised with issued cookies)
+            if m < 600 || case.expiry < 30 {
                 return Ok(());
             }
             let margin = (case.expiry / 10).clamp(3, 3600);
@@ -361,7 +425,8 @@ fn listener_part(case: &Case) -> Result<(), (String, String)> {
 /// the end of the response)
 fn unread_response_part(case: &Case) -> Result<(), (String, String)> {
     const SIZE: usize = 24 << 20;
-    let port = start_passage_with(case, Some("x".repeat(SIZE)));
+    let inst = start_passage_with(case, Some("x".repeat(SIZE))).map_err(|e| ("inconclusive".to_string(), e))?;
+    let port = inst.port;
     let timeout = Duration::from_secs(u64::from(case.timeout_s));
     let mut c = NetClient::connect(port).map_err(|e| ("inconclusive".to_string(), e.to_string()))?;
     let _ = c.send(&Pkt::Handshake { protocol: 770, host: "big.example.org".into(), port: 25565, next: 1 });
@@ -390,7 +455,17 @@ fn unread_response_part(case: &Case) -> Result<(), (String, String)> {
 }
 
 fn decide(case: &Case, info: &mut CaseInfo) -> Verdict {
-    let port = start_passage(case);
+    let inst = match start_passage(case).or_else(|_| start_passage(case)) {
+        Ok(i) => i,
+        // an instance that does not start handles no connection: nothing to decide
+        Err(e) => return Verdict::Inconclusive(format!("instance did not start: {e} (two attempts)")),
+    };
+    let port = inst.port;
+    if let Some(plan) = &case.layers {
+        info.class("configuration_through_layers");
+        info.class(format!("secret_layer:{:?}", plan.secret));
+        info.class(format!("timeout_layer:{:?}", plan.timeout));
+    }
     let results: Vec<(usize, Result<(), (String, String)>)> = std::thread::scope(|s| {
         let hs: Vec<_> = case.scenarios.iter().enumerate().map(|(i, scn)| s.spawn(move || (i, run_scenario(case, port, scn)))).collect();
         hs.into_iter().map(|h| h.join().expect("scenario thread")).collect()
@@ -401,7 +476,11 @@ fn decide(case: &Case, info: &mut CaseInfo) -> Verdict {
                 info.nontrivial = true;
                 info.class("frame_within_1_of_configured_max");
             }
-            Scn::Cookie { inside, other_secret: false } => {
+            Scn::IssuedCookie { wait_out } if case.max_len >= 600 && case.timeout_s >= 2 && (!*wait_out || case.expiry <= 3) => {
+                info.nontrivial = true;
+                info.class(if *wait_out { "issued_cookie_presented_after_the_configured_expiry" } else { "issued_cookie_presented_at_once" });
+            }
+            Scn::Cookie { inside, other_secret: false } if case.expiry >= 30 => {
                 let margin = (case.expiry / 10).clamp(3, 3600);
                 let age = if *inside { case.expiry.saturating_sub(margin) } else { case.expiry + margin };
                 if (age < 21_600) != (age < case.expiry) || (age <= case.expiry) != (age <= 21_600) {
@@ -433,7 +512,7 @@ fn decide(case: &Case, info: &mut CaseInfo) -> Verdict {
             }
             // control: the same scenario once more, alone
             match run_scenario(case, port, &case.scenarios[i]) {
-                Err((sig2, msg2)) if sig2 == sig => return Verdict::Fail { sig, msg: format!("scenario #{i} {:?}: {msg2} (confirmed by a second run)", case.scenarios[i]) },
+                Err((sig2, msg2)) if sig2 == sig => return Verdict::Fail { sig, msg: format!("scenario #{i} {:?}: {msg2} (confirmed by a second run; instance: {})", case.scenarios[i], inst.how) },
                 _ => inconclusive = Some(format!("scenario #{i} failed once ({msg}) and passed when repeated alone")),
             }
         }
@@ -496,17 +575,19 @@ impl Check for C14 {
             3 => (any::<bool>(), prop::bool::weighted(0.25)).prop_map(|(inside, other_secret)| Scn::Cookie { inside, other_secret }),
             2 => beh.prop_map(|b| Scn::Behave(b)),
             1 => Just(Scn::StallThenCookie),
+            2 => any::<bool>().prop_map(|wait_out| Scn::IssuedCookie { wait_out }),
         ];
         (
             prop_oneof![3 => proptest::sample::select(vec![64u32, 100, 1000, 9_999, 10_001, 65_536, (1 << 21) - 1]), 1 => Just(10_000u32), 2 => 64u32..200_000],
-            proptest::sample::select(vec![30u64, 60, 600, 21_600, 100_000, 1_000_000]),
+            proptest::sample::select(vec![1u64, 2, 3, 30, 60, 600, 21_600, 100_000, 1_000_000]),
             1u8..=3,
             "[a-zA-Z0-9]{4,24}",
             proptest::collection::vec(scn, 6..20),
             300u16..900,
             prop::bool::weighted(0.3),
+            proptest::option::weighted(0.5, crate::layers::plan_strategy()),
         )
-            .prop_map(|(max_len, expiry, timeout_s, secret, scenarios, listener_timeout_ms, unread_response)| Case { max_len, expiry, timeout_s, secret, scenarios, listener_timeout_ms, unread_response })
+            .prop_map(|(max_len, expiry, timeout_s, secret, scenarios, listener_timeout_ms, unread_response, layers)| Case { max_len, expiry, timeout_s, secret, scenarios, listener_timeout_ms, unread_response, layers })
             .boxed()
     }
     fn cases(&self, tier: Tier) -> u64 {
@@ -520,6 +601,7 @@ impl Check for C14 {
     fn finish(&self, stats: &Stats) {
         let n = STARTED.load(Ordering::Relaxed);
         stats.set_extra("passage_start_instances", json!(n));
+        stats.set_extra("child_instances_configured_through_layers", json!(LAYERED.load(Ordering::Relaxed)));
         if n > 0 {
             // stop every in-process instance the way an operator does (ctrl-c); tokio's handler is installed
             unsafe {
